@@ -92,6 +92,7 @@ def replay_history(job):
     hist, no_color, nested = job
     from ak.color import ColorsConfig, Palette, ConfColor
     conf = None
+    dash_pending = False
     pals = []          # (palette class, {accessor: id})
     for n, st in enumerate(hist):
         if isinstance(st['batch'], list):
@@ -102,10 +103,10 @@ def replay_history(job):
         arg = _nest(flat) if nested else flat
         where = 'step %d (%s %s)' % (n + 1, st['kind'], flat)
         tags = []
-        if any(d['p'] and '-' in d['c'] for d in st['batch'].values()) or (
-                conf is not None and any(x.parent_syntax_id and '-' in (x.fg_color, x.bg_color)
-                                         for x in conf.syntax_map.values() if x.color_fmt is None)):
+        if any(d['p'] and '-' in d['c'] for d in st['batch'].values()) or dash_pending:
             tags = ['colorsconf.dash_under_parent']
+        # (a description with '-' under a parent registered earlier may still be pending: the tag stays on)
+        dash_pending = dash_pending or any(d['p'] and '-' in d['c'] for d in st['batch'].values())
         try:
             if st['kind'] == 'config':
                 conf = ColorsConfig(arg, no_color=no_color)
